@@ -7,6 +7,7 @@
    as a whole) - that is explored by the streams of tools/props/c22.py with controlled hashes and fresh processes. *)
 From Coq Require Import ZArith List Bool String Permutation.
 Require Import V.Lib.Val V.Dad.OrderModel V.Dad.OrderProofs V.gen.Gen_SetSites V.Dad.OrderSites.
+Require V.Dad.DomModel.   (* the stream site-dominators of tools/props/c22.py evaluates C18's specification of immediate dominators *)
 Import ListNotations.
 Open Scope Z_scope.
 
